@@ -428,4 +428,81 @@ Example C06_source_tie_match_inners_example :
   gen_matchInnersToPolygons [[P0]; []] [A] true = Err IndexOutOfRange /\
   gen_matchInnersToPolygons [] [A; B] false = Ok [[rev A]; [rev B]] /\
   gen_matchInnersToPolygons [[P0]; [P1]] [] false = Ok [[P0]; [P1]].
+
+From Texel Require Import Prelude.GoLoop Prelude.GoLib Snap.ProofsGenRingHelpers.
+From Texel.Gen Require Import RingHelpersGen.
+
+(** ** tie G2 (loops): the small ring helpers REGENERATED from source on this run (gen/RingHelpersGen.v) are the model's
+    on ALL inputs, every outcome included ([Err IndexOutOfRange] of ringsAreEqual / ringContains on an empty ring).
+    REGENERATED from snap.go: ringsAreEqual (its [for k] loop on fuel len + 1, both comparisons with their short-circuit
+    operands, Go's truncating [%] as [go_rem] — equal to the model's [mod] because the operands are non-negative),
+    ringContains (the wrap-around edge, the [for i] loop with its early return, the even-odd flip), outersToPolygons,
+    reverseWindingOrderIfConfigured (two nested [for i := range] loops), sortPolyIdxsByOuterAreaDesc (the [range] loop
+    and its if/else); from mapslicehelp.go, instantiated at the types of their call sites in snap.go:
+    FindLastKeyWithMaxValue (named results, [continue]), LastMatch (the downward [for] loop), DeleteFromSliceByIndex,
+    OrderedMapKeys, CountVals, LastElement, ReverseClone.  In the model these are [ringsAreEqual], [ringContains],
+    [map (fun o => [o])] and [map (map rev)] of snapLevel, [sortPolyIdxsByOuterAreaDesc], [maxWinners] (key and number of
+    winners of the three results [maxWinners3]), [lastMatch], [filter_idx], [map fst], the counts [nO] / [nI] of
+    dedupeStep, [last_opt], [rev].
+    STAYS MODELLED (the translator checks the AST for the exact call shape and then emits the model's function; trusted):
+    geomhelp.RayIntersect (float code) = [rayIntersect]; geomhelp.Shoelace and the literal 0.0 (float code) = [absArea2], 0;
+    go-sortedmap New(i > j) / Insert(range index, v) / Keys = [] / [area_place] / [map fst]; go-ordered-map = the
+    insertion-ordered association list walked by Newest..Prev ([rev]) or Oldest..Next, Key / Value / Len = fst / snd / zlen;
+    a map[int]X read only by [_, ok := m[k]] = the list of its keys ([mem_Z]); slices.Index / slices.Contains =
+    [slices_index pt_eqb] / [mem_Z]; slices.Reverse(p[i][j]) in place = the element replaced by its reverse (the rings do
+    not share memory); config.ReverseWindingOrder = the record field; [&s[i]] = [Some s[i]]; [s == nil] = [is_nil s]
+    (nil and empty slices are both []); [int] and [uint] are exact Z, [2]float64 is [pt].
+    NOT regenerated: the callers dedupeInnersOuters, matchInnersToPolygons, addPointsAndSnap (hand-modelled, held by
+    the correspondence). *)
+Theorem C06_source_tie_ring_helpers :
+  (forall ringI ringJ iIsOuter jIsOuter,
+     gen_ringsAreEqual ringI ringJ iIsOuter jIsOuter = ringsAreEqual ringI ringJ iIsOuter jIsOuter) /\
+  (forall r p, gen_ringContains r p = ringContains r p) /\
+  (forall m, gen_FindLastKeyWithMaxValue m = Ok (maxWinners3 m) /\
+             maxWinners m = (fst (fst (maxWinners3 m)), snd (maxWinners3 m))) /\
+  (forall haystack needle, gen_LastMatch haystack needle = Ok (lastMatch haystack needle)) /\
+  (forall (s : list ring) del off, gen_DeleteFromSliceByIndex s del off = Ok (filter_idx s off del)) /\
+  (forall polys, gen_sortPolyIdxsByOuterAreaDesc polys = Ok (sortPolyIdxsByOuterAreaDesc polys)) /\
+  (forall outs : list ring, gen_outersToPolygons outs = Ok (map (fun o => [o]) outs)) /\
+  (forall ps cfg, gen_reverseWindingOrderIfConfigured ps cfg
+                  = Ok (if reverseWindingOrder cfg then map (map (@rev pt)) ps else ps)) /\
+  (forall m : list (Z * Z), gen_OrderedMapKeys m = Ok (map fst m)) /\
+  (forall (m : list (Z * bool)) v, gen_CountVals m v = Ok (zlen (filter (fun p => Bool.eqb (snd p) v) m))) /\
+  (forall m : list (Z * bool), gen_CountVals m true = Ok (zlen (filter (fun e => snd e) m)) /\
+                               gen_CountVals m false = Ok (zlen (filter (fun e => negb (snd e)) m))) /\
+  (forall l : list pt, gen_LastElement l = Ok (last_opt l)) /\
+  (forall s : list pt, gen_ReverseClone s = Ok (rev s)).
+Proof.
+  split; [exact gen_ringsAreEqual_spec |]. split; [exact gen_ringContains_spec |].
+  split; [exact (fun m => conj (gen_FindLastKeyWithMaxValue_spec m) (maxWinners_of_3 m)) |].
+  split; [exact gen_LastMatch_spec |]. split; [exact gen_DeleteFromSliceByIndex_spec |].
+  split; [exact gen_sortPolyIdxsByOuterAreaDesc_spec |]. split; [exact gen_outersToPolygons_spec |].
+  split; [exact gen_reverseWindingOrderIfConfigured_spec |]. split; [exact gen_OrderedMapKeys_spec |].
+  split; [exact gen_CountVals_spec |]. split; [exact gen_CountVals_outers_inners |].
+  split; [exact gen_LastElement_spec | exact gen_ReverseClone_spec].
+Qed.
+Print Assumptions C06_source_tie_ring_helpers.
+
+(** the regenerated code runs: a ring against its rotation and against its reversed rotation (outer vs inner), an empty
+    ring (Go: index out of range), a point inside / on the boundary of / outside a square, the last of two maximal
+    counts, areas 8, 2, 0, 32 sorted descending, deletion by shifted index, both reversals *)
+Example C06_source_tie_ring_helpers_example :
+  let sq := [(0,0); (4,0); (4,4); (0,4)] in
+  gen_ringsAreEqual sq [(4,4); (0,4); (0,0); (4,0)] true true = Ok true /\
+  gen_ringsAreEqual sq [(4,4); (4,0); (0,0); (0,4)] true false = Ok true /\
+  gen_ringsAreEqual sq [(4,4); (4,0); (0,0); (0,4)] true true = Ok false /\
+  gen_ringsAreEqual [] [] true false = Err IndexOutOfRange /\
+  gen_ringContains sq (2,1) = Ok (true, false) /\ gen_ringContains sq (4,2) = Ok (true, true) /\
+  gen_ringContains sq (5,5) = Ok (false, false) /\ gen_ringContains [] (0,0) = Err IndexOutOfRange /\
+  gen_FindLastKeyWithMaxValue [(3,1); (0,2); (5,2); (1,1)] = Ok (5, 2, 2) /\
+  gen_LastMatch [4; 2; 7; 9] [7; 4] = Ok 7 /\ gen_LastMatch [4; 2] [9] = Ok 0 /\
+  gen_DeleteFromSliceByIndex [[(1,1)]; [(2,2)]; [(3,3)]] [4; 0] 3 = Ok [[(1,1)]; [(3,3)]] /\
+  gen_sortPolyIdxsByOuterAreaDesc [[[(0,0); (2,0); (2,2); (0,2)]]; [[(0,0); (1,0); (1,1); (0,1)]]; []; [sq]] = Ok [3; 0; 1; 2] /\
+  gen_outersToPolygons [sq; [(1,1)]] = Ok [[sq]; [[(1,1)]]] /\
+  gen_reverseWindingOrderIfConfigured [[sq; [(1,1); (2,2)]]; [[(7,7); (8,8); (9,9)]]] (mkConfig false false true)
+    = Ok [[[(0,4); (4,4); (4,0); (0,0)]; [(2,2); (1,1)]]; [[(9,9); (8,8); (7,7)]]] /\
+  gen_OrderedMapKeys [(3,1); (0,2); (5,2)] = Ok [3; 0; 5] /\
+  gen_CountVals [(0, true); (1, false); (2, true)] true = Ok 2 /\
+  gen_LastElement sq = Ok (Some (0,4)) /\ gen_LastElement [] = Ok None /\
+  gen_ReverseClone sq = Ok [(0,4); (4,4); (4,0); (0,0)].
 Proof. vm_compute. repeat split; reflexivity. Qed.
